@@ -506,6 +506,7 @@ impl World {
         let su = suite(rc.cfg.suite);
         let before_state = rc.real.as_ref().unwrap().seq_state();
         let mut buf = body.clone();
+        let ledger_before = if p == P::C16 && single { Some(ledger_all()) } else { None };
         let res: Res<Vec<u8>> = match api {
             OpenApi::Alloc => rc.real.as_mut().unwrap().open(&whole, aad),
             OpenApi::InPlace => rc.real.as_mut().unwrap().open_in_place(&mut buf, aad, &tag).map(|_| buf.clone()),
@@ -514,6 +515,24 @@ impl World {
         };
         cov.ops += 1;
         tx_res(&mut self.tx, &res);
+        if let Some(before) = ledger_before {
+            // a single-shot open builds and drops a whole receiver context inside the call: whatever
+            // the outcome, its secrets must have been dropped and wiped when the call returns
+            let after = ledger_all();
+            let setup_ok = !matches!(res, Err(Fail::Hpke(E::DecapError)) | Err(Fail::Decode(..)) | Err(Fail::Panic(_)));
+            for k in 0..4 {
+                if after[k].1 != before[k].1 {
+                    return Err(viol("drop.ledger-dirty", format!("single-shot open: every dropped {} buffer is all-zero", LEDGER_NAMES[k]), "non-zero bytes left".into()));
+                }
+            }
+            if setup_ok && seals {
+                for k in [1usize, 2] {
+                    if after[k].0 - before[k].0 < 1 {
+                        return Err(viol("drop.not-run", format!("single-shot open ({}): the temporary receiver context's {} is dropped and wiped before the call returns", out_class_s(&res), LEDGER_NAMES[k]), "no drop recorded".into()));
+                    }
+                }
+            }
+        }
         let pc = pos_class(pseq, pover);
         let oc = out_class_s(&res);
         cov.hit(&format!("deliver.{}.{}.{:?}.{:?}.{}", pc, label, api, rc.cfg.suite.aead, oc));
